@@ -10,7 +10,7 @@
   head of an and-group, with the nested call on the forking head: `and_group_merge_real`; the same for ONE MERGING branch head of an
   or-group of single atoms: `or_group_merge_real`.  Both calls composed for one event on a pure and-group: `and_group_event_real`;
   on a pure or-group of single atoms with one branch matching: `or_group_event_real`.  CoreVM's `mergeLoop` (`while heads_are_merging`)
-  around call 2: `mergeLoop_active`, `and_group_mergeLoop_real`.
+  around call 2: `mergeLoop_active`, `and_group_mergeLoop_real`, `or_group_mergeLoop_real`.
 -/
 import NemoVerif.Lemmas.GroupCoreVMMirror
 set_option linter.unusedSimpArgs false
@@ -1230,6 +1230,47 @@ theorem and_group_mergeLoop_real (fuel : Nat) (s : VM) (f : FUid) (i : Inst) (x 
     hju hjm hone hfu hhx hleaf hmu hfp hstarted hq hclr hsz4 hc1 hc2 hp hargs hint hcl
   have hndv2 : ((hview i2).map (·.1)).Nodup := by rw [hv2]; simp
   obtain ⟨rd2, hfr2, _, hrs2⟩ := findHead_of_mem_hview i2 hndv2 r (pe + 4) .active (by rw [hv2]; simp)
+  have hnext := mergeLoop_active (fuel + 3) s2 f r i2 rd2 F2.hi hfr2 hrs2 (by rw [hq2]; exact hq)
+  have hso : headStatusOf s.ixs.ix (f, uj.1) = some HeadStatus.merging := by
+    simp only [headStatusOf, F.hi, Option.bind, hfh, Option.map, hstat]
+  refine ⟨s2, i2, x2, ?_, F2, hv2⟩
+  unfold mergeLoop
+  simp only [drainEvents, bind, EStateM.bind, getRest, get, getThe, MonadStateOf.get, EStateM.get, pure, EStateM.pure, hq,
+    pendingDetachedBad, List.any_cons, List.any_nil, hso, Option.isNone_some, Bool.false_and, Bool.or_false, Bool.false_eq_true, if_false,
+    List.filter_cons, List.filter_nil, show (some HeadStatus.merging = some HeadStatus.active) = False from by simp, decide_false,
+    decide_true, if_true, List.isEmpty_cons, hreal, List.nil_append, hnext]
+
+/-- **`while heads_are_merging:` (CoreVM's `mergeLoop`) on the MERGING branch head of an or-group of single atoms (one branch matched)**: the event queue is empty, the one
+    pending head is MERGING: `_advance_head_front` is called with it (`or_group_merge_real`), hands back the forking head — ACTIVE on the
+    statement after the group —, and the next round of the loop finds nothing MERGING and ends: the forking head goes to the main loop
+    (`_resolve_action_conflicts`, then the marker is sent). -/
+theorem or_group_mergeLoop_real (fuel : Nat) (s : VM) (f : FUid) (i : Inst) (x : InstX) (cfg : FlowCfg) (l mu : String) (pe fp : Nat)
+    (r : HUid) (us : List (HUid × Nat)) (ms : List Br) (j : Nat) (uj : HUid × Nat)
+    (spec : Spec) (nm : String)
+    (F : FlowAt s f i x cfg) (C : OrShape cfg l mu pe)
+    (hv : hview i = (r, fp, HeadStatus.inactive) :: renderB (pe + 1) us ms)
+    (hlen : us.length = ms.length) (hndu : (r :: us.map (·.1)).Nodup)
+    (hju : us[j]? = some uj) (hjm : ms[j]? = some Br.merging)
+    (hone : ∀ j' m', ms[j']? = some m' → j' ≠ j → ∃ a, m' = Br.single a)
+    (hfu : OMap.lookup mu x.forkUids = some r)
+    (hhx : ((OMap.lookup (f, r) s.r.hx).getD {}).childHeadUids = us.map (·.1))
+    (hleaf : ∀ c ∈ us.map (·.1), ((OMap.lookup (f, c) s.r.hx).getD {}).childHeadUids = [])
+    (hmu : mu ∉ us.map (·.1)) (hfp : fp ≠ pe + 1)
+    (hstarted : i.status = .started) (hq : s.r.queue = []) (hclr : s.r.cleared.contains (f, uj.1) = false)
+    (hsz4 : pe + 3 < cfg.elements.size) (hc1 : cfg.elements[pe + 2]! = .catchFail none) (hc2 : cfg.elements[pe + 3]! = .sendOp spec)
+    (hp : PlainSpec spec nm) (hargs : spec.args = []) (hint : internalEvents.contains nm = false)
+    (hcl : ((OMap.lookup (f, uj.1) s.r.hx).getD {}).catchLabels.isEmpty = false) :
+    ∃ s' i' x', mergeLoop (fuel + 6) [(f, uj.1)] s = .ok [(f, r)] s' ∧ FlowAt s' f i' x' cfg ∧
+      hview i' = [(r, pe + 3, HeadStatus.active)] := by
+  have hndv : ((hview i).map (·.1)).Nodup := by
+    rw [hv, List.map_cons, renderB_fst _ _ _ hlen]; exact hndu
+  have hmem_h : (uj.1, pe + 1, HeadStatus.merging) ∈ hview i := by
+    rw [hv]; exact List.mem_cons_of_mem _ (mem_renderB (pe + 1) us ms j uj Br.merging hju hjm)
+  obtain ⟨hd, hfh, _, hstat⟩ := findHead_of_mem_hview i hndv uj.1 (pe + 1) .merging hmem_h
+  obtain ⟨s2, i2, x2, hreal, F2, hv2, hq2⟩ := or_group_merge_real fuel s f i x cfg l mu pe fp r us ms j uj spec nm F C hv hlen hndu
+    hju hjm hone hfu hhx hleaf hmu hfp hstarted hq hclr hsz4 hc1 hc2 hp hargs hint hcl
+  have hndv2 : ((hview i2).map (·.1)).Nodup := by rw [hv2]; simp
+  obtain ⟨rd2, hfr2, _, hrs2⟩ := findHead_of_mem_hview i2 hndv2 r (pe + 3) .active (by rw [hv2]; simp)
   have hnext := mergeLoop_active (fuel + 3) s2 f r i2 rd2 F2.hi hfr2 hrs2 (by rw [hq2]; exact hq)
   have hso : headStatusOf s.ixs.ix (f, uj.1) = some HeadStatus.merging := by
     simp only [headStatusOf, F.hi, Option.bind, hfh, Option.map, hstat]
